@@ -343,6 +343,7 @@ package forwarder
 //@ func (conntrack.Builder).Build
 //@ trusted
 //@ modifies *
+//@ ensures result != nil
 
 //@ func (*Dialer).DialContext
 //@ property C05
@@ -416,3 +417,42 @@ package forwarder
 //@   invariant fg == lastInner() && fg != nil && hp != nil && hp.log != nil && hp.config != nil
 //@ loop 2:
 //@   invariant fg == lastInner() && fg != nil && hp != nil && hp.log != nil && hp.config != nil
+
+// ---- listener-side connection accounting (C13 L13.2) ----
+// promInc/promDec: net effect on a Prometheus gauge or counter (ghost integer).
+//@ ghost ivar promVal(prometheus.Gauge) int
+//@ func (prometheus.Gauge).Inc, (prometheus.Counter).Inc as (g prometheus.Gauge)
+//@ trusted
+//@ modifies promVal(g)
+//@ ensures promVal(g) == old(promVal(g)) + 1
+//@ func (prometheus.Gauge).Dec as (g prometheus.Gauge)
+//@ trusted
+//@ modifies promVal(g)
+//@ ensures promVal(g) == old(promVal(g)) - 1
+
+// accept: one more accepted and one more active; close: one less active.
+//@ func (*listenerMetrics).accept
+//@ property C13
+//@ requires m != nil && m.accepted != nil && m.active != nil && m.accepted != m.active
+//@ modifies promVal(m.accepted), promVal(m.active)
+//@ ensures promVal(m.active) == old(promVal(m.active)) + 1
+//@ func (*listenerMetrics).close
+//@ property C13
+//@ requires m != nil && m.active != nil
+//@ modifies promVal(m.active)
+//@ ensures promVal(m.active) == old(promVal(m.active)) - 1
+//@ func (*listenerMetrics).error
+//@ property C13
+//@ requires m != nil && m.errors != nil
+//@ modifies promVal(m.errors)
+//@ ensures promVal(m.errors) == old(promVal(m.errors)) + 1
+
+// Listener.Accept: an accepted connection is counted active exactly once (the
+// matching decrement is the close callback handed to conntrack, which runs it
+// on the first Close only - see conntrack); a failed accept counts nothing active.
+//@ func (*Listener).Accept
+//@ property C13
+//@ requires l != nil && l.listener != nil && l.metrics != nil && l.metrics.accepted != nil && l.metrics.active != nil && l.metrics.errors != nil && l.metrics.accepted != l.metrics.active && l.metrics.errors != l.metrics.active
+//@ modifies *, promVal
+//@ ensures result1 == nil ==> result0 != nil && promVal(old(l.metrics.active)) == old(promVal(l.metrics.active)) + 1
+//@ ensures result1 != nil ==> result0 == nil && promVal(old(l.metrics.active)) == old(promVal(l.metrics.active))
